@@ -131,3 +131,55 @@ func stateVariants(spec *common.Spec, s *chain.Step, fs *flat.State, rng *rand.R
 	}
 	return out
 }
+
+// submitOddDeposit sends one unusual but well-formed deposit to the deposit contract (the contract checks
+// nothing but the amount format); the chain includes it when the protocol says so. Returns the kind.
+func submitOddDeposit(c *chain.Chain, rng *rand.Rand, key int) string {
+	eth := common.Gwei(1_000_000_000)
+	creds := c.Keys.BLSCredentials(key)
+	switch rng.Intn(9) {
+	case 0: // not a curve point
+		d := c.MakeDeposit(key, creds, 32*eth, key)
+		for i := range d.Pubkey {
+			d.Pubkey[i] = byte(rng.Intn(256))
+		}
+		d.Pubkey[0] |= 0x80
+		c.SubmitDeposit(d)
+		return "garbage-pubkey"
+	case 1: // the point at infinity as key and as signature
+		d := common.DepositData{WithdrawalCredentials: creds, Amount: 32 * eth}
+		d.Pubkey[0], d.Signature[0] = 0xc0, 0xc0
+		c.SubmitDeposit(d)
+		return "infinity-pubkey-and-signature"
+	case 2: // signature bytes that are no curve point
+		d := c.MakeDeposit(key, creds, 32*eth, key)
+		for i := range d.Signature {
+			d.Signature[i] = byte(rng.Intn(256))
+		}
+		c.SubmitDeposit(d)
+		return "garbage-signature"
+	case 3: // one gwei: a validator with effective balance 0
+		c.SubmitDeposit(c.MakeDeposit(key, creds, 1, key))
+		return "new-validator-1-gwei"
+	case 4: // far above the maximum effective balance
+		c.SubmitDeposit(c.MakeDeposit(key, creds, 70*eth+12345, key))
+		return "new-validator-70-eth"
+	case 5: // the same new key twice in a row: the second deposit is a top-up of the validator the first one creates
+		c.SubmitDeposit(c.MakeDeposit(key, creds, 32*eth, key))
+		c.SubmitDeposit(c.MakeDeposit(key, creds, 3*eth, key))
+		return "new-validator-then-top-up"
+	case 6: // top-up of an existing validator with a signature by somebody else (top-ups are not signature checked)
+		c.SubmitDeposit(c.MakeDeposit(rng.Intn(16), creds, 2*eth, key+1))
+		return "top-up-foreign-signature"
+	case 7: // proof of possession over another amount
+		d := c.MakeDeposit(key, creds, 32*eth, key)
+		d.Amount = 31 * eth
+		c.SubmitDeposit(d)
+		return "signature-over-other-amount"
+	default: // a second deposit for a key whose first deposit had an invalid proof of possession, now valid
+		d := c.MakeDeposit(key, creds, 32*eth, key+1)
+		c.SubmitDeposit(d)
+		c.SubmitDeposit(c.MakeDeposit(key, creds, 32*eth, key))
+		return "bad-pop-then-good-pop"
+	}
+}
